@@ -545,9 +545,151 @@ def np_attr(c):
     return None
 
 
+
+# ----------------------------------------------------------------------------------------------
+# array one-liners: NumPy/SciPy calls mapped 1:1 to Prelude.Np combinators (generic twin)
+# ----------------------------------------------------------------------------------------------
+
+class ArrExpr:
+    """typed expression printer: every sub-expression is an array ('arr') or a scalar ('scal')"""
+
+    def __init__(self, fname, src, env, attr_env):
+        self.fname, self.src = fname, src
+        self.env = dict(env)            # local name -> (kind, text)
+        self.attr_env = attr_env        # attribute name of a signal object -> (kind, text)
+
+    def fail(self, e, what):
+        raise Untranslatable(self.fname, getattr(e, 'lineno', 0), what + ': ' + (ast.get_source_segment(self.src, e) or ''))
+
+    def tr(self, e):
+        if isinstance(e, ast.Name):
+            if e.id in self.env:
+                return self.env[e.id]
+            self.fail(e, 'unknown name')
+        if isinstance(e, ast.Attribute):
+            if isinstance(e.value, ast.Name) and e.value.id == 'np' and e.attr == 'pi':
+                return ('scal', 'pi')
+            if isinstance(e.value, ast.Name) and e.attr in self.attr_env:
+                return self.attr_env[e.attr]
+            self.fail(e, 'attribute')
+        if isinstance(e, ast.Constant) and isinstance(e.value, (int, float)) and not isinstance(e.value, bool):
+            return ('scal', lit_text(ast.get_source_segment(self.src, e)))
+        if isinstance(e, ast.UnaryOp) and isinstance(e.op, ast.USub):
+            k, t = self.tr(e.operand)
+            if k == 'scal':
+                return ('scal', f"(-{t})")
+            self.fail(e, 'negated array')
+        if isinstance(e, ast.BinOp):
+            if isinstance(e.op, ast.Pow):
+                k, t = self.tr(e.left)
+                if isinstance(e.right, ast.Constant) and e.right.value == 2:
+                    return ('arr', f"(Np.sq {t})") if k == 'arr' else ('scal', f"({t} * {t})")
+                self.fail(e, 'power')
+            (kl, tl), (kr, tr_) = self.tr(e.left), self.tr(e.right)
+            op = {ast.Add: '+', ast.Sub: '-', ast.Mult: '*', ast.Div: '/'}.get(type(e.op))
+            if op is None:
+                self.fail(e, 'operator')
+            if kl == 'scal' and kr == 'scal':
+                return ('scal', f"({tl} {op} {tr_})")
+            if kl == 'scal' and kr == 'arr' and op == '*':
+                return ('arr', f"(Np.scale {tl} {tr_})")
+            if kl == 'arr' and kr == 'scal' and op in '*/':
+                return ('arr', f"({tl}.map (· {op} {tr_}))")
+            if kl == 'arr' and kr == 'arr' and op == '*':
+                return ('arr', f"(List.zipWith (· * ·) {tl} {tr_})")
+            self.fail(e, 'array operator')
+        if isinstance(e, ast.Call):
+            f = e.func
+            name = None
+            if isinstance(f, ast.Attribute) and isinstance(f.value, ast.Name) and f.value.id == 'np':
+                name = 'np.' + f.attr
+            elif isinstance(f, ast.Name):
+                name = f.id
+            kw = {k.arg: k.value for k in e.keywords}
+            if name == 'cumulative_trapezoid' and len(e.args) == 1 and set(kw) == {'dx', 'initial'} and \
+                    isinstance(kw['initial'], ast.Constant) and kw['initial'].value == 0:
+                k, t = self.tr(e.args[0])
+                kd, td = self.tr(kw['dx'])
+                if k == 'arr' and kd == 'scal':
+                    return ('arr', f"(Np.cumtrapz {td} {t})")
+            if name in ('np.abs', 'abs') and len(e.args) == 1 and not kw:
+                k, t = self.tr(e.args[0])
+                return ('arr', f"(Np.absL {t})") if k == 'arr' else ('scal', f"(Np.absv {t})")
+            if name == 'np.cumsum' and len(e.args) == 1 and not kw:
+                k, t = self.tr(e.args[0])
+                if k == 'arr':
+                    return ('arr', f"(Np.cumsum {t})")
+            if name == 'np.where' and len(e.args) == 3 and not kw and isinstance(e.args[0], ast.Compare):
+                c = e.args[0]
+                (k1, a1), (k2, a2) = self.tr(c.left), self.tr(c.comparators[0])
+                (k3, x), (k4, y) = self.tr(e.args[1]), self.tr(e.args[2])
+                opc = {ast.Gt: '>', ast.Lt: '<'}.get(type(c.ops[0]))
+                if opc and k1 == k2 == k3 == k4 == 'scal':
+                    return ('scal', f"(if {a1} {opc} {a2} then {x} else {y})")
+            if name in ('max', 'min') and len(e.args) == 2 and not kw:
+                (k1, a1), (k2, a2) = self.tr(e.args[0]), self.tr(e.args[1])
+                if k1 == k2 == 'scal':
+                    return ('scal', f"(Np.{name}2 {a1} {a2})")
+            if name in ('max', 'min') and len(e.args) == 1 and not kw and isinstance(e.args[0], ast.Name) and \
+                    (e.args[0].id + '.' + name) in self.env:
+                return self.env[e.args[0].id + '.' + name]     # max(motion) / min(motion): the series' extreme values are parameters
+            if isinstance(f, ast.Attribute) and f.attr in ('max', 'min') and isinstance(f.value, ast.Name) and \
+                    (f.value.id + '.' + f.attr) in self.env:
+                return self.env[f.value.id + '.' + f.attr]     # a.max(axis) / a.min(axis)
+            self.fail(e, 'call')
+        self.fail(e, 'expression')
+
+    def body(self, fn):
+        """straight-line `name = expr` … `return expr`"""
+        for st in fn.body:
+            if isinstance(st, ast.Expr) and isinstance(st.value, ast.Constant):
+                continue
+            if isinstance(st, (ast.Import, ast.ImportFrom)):
+                continue
+            if isinstance(st, ast.Assign) and len(st.targets) == 1 and isinstance(st.targets[0], ast.Name):
+                self.env[st.targets[0].id] = self.tr(st.value)
+                continue
+            if isinstance(st, ast.Return):
+                return self.tr(st.value)
+            raise Untranslatable(self.fname, st.lineno, f"statement {type(st).__name__}")
+        raise Untranslatable(self.fname, fn.lineno, "no return")
+
+
+def gen_im_simple(repo, ns):
+    isrc = open(os.path.join(repo, 'eqsig', 'im.py')).read()
+    imod = ast.parse(isrc)
+    ssrc = open(os.path.join(repo, 'eqsig', 'sdof.py')).read()
+    smod = ast.parse(ssrc)
+    sig_attrs = {'values': ('arr', 'a'), 'dt': ('scal', 'dt'), 'velocity': ('arr', 'velocity')}
+    defs = []
+
+    def emit(lean_name, sig, kind_text, doc):
+        defs.append(f"/-- {doc} -/\ndef {lean_name} {sig} :=\n  {strip_outer(kind_text[1])}")
+    fn = find_function(imod, '_raw_calc_arias_intensity')
+    emit('arias', '(pi dt : α) (a : List α) : List α', ArrExpr(fn.name, isrc, {'acc': ('arr', 'a'), 'dt': ('scal', 'dt')}, {}).body(fn),
+         '`_raw_calc_arias_intensity(acc, dt)`')
+    for pyname, lname, sig in (('calc_cav', 'cav', '(dt : α) (a : List α) : List α'),
+                               ('calc_isv', 'isv', '(dt : α) (velocity : List α) : List α'),
+                               ('calc_integral_of_abs_velocity', 'intAbsVel', '(dt : α) (velocity : List α) : List α'),
+                               ('calc_integral_of_abs_acceleration', 'intAbsAcc', '(dt : α) (a : List α) : List α')):
+        fn = find_function(imod, pyname)
+        emit(lname, sig, ArrExpr(pyname, isrc, {}, sig_attrs).body(fn), f'`{pyname}`')
+    fn = find_function(imod, 'calc_peak')
+    emit('calcPeakCore', '(mn mx : α) : α', ArrExpr('calc_peak', isrc, {'motion.min': ('scal', 'mn'), 'motion.max': ('scal', 'mx')}, {}).body(fn),
+         '`calc_peak(motion)` given `mn = min(motion)`, `mx = max(motion)`')
+    fn = find_function(smod, 'absmax')
+    emit('absmaxCore', '(amin amax : α) : α', ArrExpr('absmax', ssrc, {'a.min': ('scal', 'amin'), 'a.max': ('scal', 'amax')}, {}).body(fn),
+         '`sdof.absmax(a)` given `amin = a.min()`, `amax = a.max()`')
+    text = ["-- GENERATED by tools/py2lean.py from eqsig/im.py and eqsig/sdof.py (array one-liners as Prelude.Np combinators). Do not edit.",
+            "import EqsigVerif.Prelude.Np", "", f"namespace EqsigVerif.{ns}.ImSimple", "open EqsigVerif", "",
+            "variable {α : Type} [Add α] [Sub α] [Mul α] [Div α] [Neg α] [LT α] [DecidableLT α]",
+            "  [OfNat α 0] [OfNat α 2] [OfScientific α]", ""] + ["\n\n".join(defs)] + ["", f"end EqsigVerif.{ns}.ImSimple", ""]
+    return {"ImSimple.lean": "\n".join(text)}
+
+
 from py2lean_struct import gen_cache_table, gen_effects, Untranslatable as UntranslatableS  # noqa: E402
 
-TARGETS = [gen_sdof_ab, gen_consts, gen_cache_table, gen_effects, gen_design_spectra, gen_factor_rule, gen_ko_window]
+TARGETS = [gen_sdof_ab, gen_consts, gen_cache_table, gen_effects, gen_design_spectra, gen_factor_rule, gen_ko_window, gen_im_simple]
 
 
 def main():
